@@ -32,6 +32,7 @@ func (r rawEnc) Encode(b *bin.Buffer) error { b.Put(r); return nil }
 func run(c *hc.Ctx) error {
 	r := c.Rng
 	var q c04shared.Queue
+	var rt c04shared.Retainer
 	// ---- 1. countPadding: exhaustive over l mod 16 × every random byte, plus large l
 	var ls []int
 	for l := 0; l < 64; l++ {
@@ -76,7 +77,8 @@ func run(c *hc.Ctx) error {
 	}
 	for _, n := range sizes {
 		side := hc.Pick(r, crypto.Client, crypto.Server)
-		roundTrip(c, &q, side, r.Bytes(n), r.Intn(3))
+		roundTrip(c, &q, &rt, side, r.Bytes(n), r.Intn(3))
+		rt.MaybeVerify(c, 512)
 		if err := q.MaybeFlush(c); err != nil {
 			return err
 		}
@@ -84,20 +86,58 @@ func run(c *hc.Ctx) error {
 	// ---- 3. hand-made frames: padding below / at / above the bounds, misaligned length fields (D2)
 	nf := c.N(4000, 100000)
 	for i := 0; i < nf; i++ {
-		c04shared.CraftedFrame(c, &q, "C04")
+		c04shared.CraftedFrame(c, &q, &rt, "C04")
+		rt.MaybeVerify(c, 512)
 		if err := q.MaybeFlush(c); err != nil {
 			return err
 		}
 	}
+	rt.Verify(c)
+	// ---- 4. the same from 2..4 goroutines at once (every worker owns its ciphers and random reader;
+	// Cipher is a value type without shared state): round trip checked immediately, every ciphertext
+	// and every decrypted message re-read after all workers are done
+	workers := r.Range(2, 4)
+	c04shared.Concurrently(c, &rt, workers, c.N(300, 6000)/workers, func(r *hc.RNG, w, i int) {
+		key := c04shared.GenKey(r)
+		ak := key.WithID()
+		side := hc.Pick(r, crypto.Client, crypto.Server)
+		payload := r.Bytes(4 * hc.Pick(r, 0, 1, 4, 16, 64, r.Range(0, 512)))
+		rnd := r.Bytes(1 + 16*17)
+		var enc, dec crypto.Cipher
+		if side == crypto.Client {
+			enc, dec = crypto.NewClientCipher(bytes.NewReader(rnd)), crypto.NewServerCipher(nil)
+		} else {
+			enc, dec = crypto.NewServerCipher(bytes.NewReader(rnd)), crypto.NewClientCipher(nil)
+		}
+		d := crypto.EncryptedMessageData{Salt: int64(r.U64()), SessionID: int64(r.U64()), MessageID: int64(r.U64()), SeqNo: int32(r.U64()), Message: rawEnc(payload)}
+		line := fmt.Sprintf("enc %s %s %s %d %d %d %d %d %s %s", c04shared.SideName(side), hc.Hex(key[:]), hc.Hex(ak.ID[:]),
+			uint64(d.Salt), uint64(d.SessionID), uint64(d.MessageID), uint32(d.SeqNo), uint32(len(payload)), hc.Hex(payload), hc.Hex(rnd))
+		b := &bin.Buffer{}
+		c.Count("concurrent.roundtrip")
+		if err := enc.Encrypt(ak, d, b); err != nil {
+			c.Fail("encrypt-error", line, err.Error())
+			return
+		}
+		rt.Keep("Cipher.Encrypt(concurrent)", line, func() []byte { return b.Buf })
+		got, err := dec.DecryptFromBuffer(ak, &bin.Buffer{Buf: append([]byte{}, b.Buf...)})
+		if err != nil {
+			c.Fail("roundtrip-rejected", line, fmt.Sprintf("concurrent use, %d goroutines: %v", workers, err))
+			return
+		}
+		if got.Salt != d.Salt || got.SessionID != d.SessionID || got.MessageID != d.MessageID || got.SeqNo != d.SeqNo || !bytes.Equal(got.Data(), payload) {
+			c.Fail("roundtrip-differs", line, fmt.Sprintf("concurrent use, %d goroutines", workers))
+		}
+		c04shared.KeepDecrypted(&rt, line, got)
+	})
 	if err := q.Flush(c); err != nil {
 		return err
 	}
-	c.Res.Rule = "countPadding: every residue l mod 16 (l = 0..63 and four large lengths) × all 256 random bytes (exhaustive for the function's case split). Round trips: every payload length 0..4096 step 4 (once in quick, ten times in thorough) + random up to 16 KiB (64 KiB thorough) + 64 KiB, 256 KiB (quick) / 1 MiB (thorough), both directions, random keys (5% all-zero/all-FF/low entropy), three encoder paths (Message encoder, raw MessageDataWithPadding, proto.GZIP). Hand-made frames with padding 0..11, 12, 1024, 1028.. and length fields ≡ 1,2,3 mod 4 or negative. Non-trivial = all; distinct = distinct input line"
+	c.Res.Rule = "countPadding: every residue l mod 16 (l = 0..63 and four large lengths) × all 256 random bytes (exhaustive for the function's case split). Round trips: every payload length 0..4096 step 4 (once in quick, ten times in thorough) + random up to 16 KiB (64 KiB thorough) + 64 KiB, 256 KiB (quick) / 1 MiB (thorough), both directions, random keys (5% all-zero/all-FF/low entropy), three encoder paths (Message encoder, raw MessageDataWithPadding, proto.GZIP). Hand-made frames with padding 0..11, 12, 1024, 1028.. and length fields ≡ 1,2,3 mod 4 or negative. Every ciphertext buffer and every accepted *EncryptedMessageData is retained as returned and re-read after later calls; the round trip also runs from 2..4 goroutines at once. Non-trivial = all; distinct = distinct input line"
 	c.PartialNote("gzip compression itself is not modelled: on the proto.GZIP path the model encrypts the bytes the Go encoder produced; the monitor checks that the decrypted object gunzips to the original data")
 	return nil
 }
 
-func roundTrip(c *hc.Ctx, q *c04shared.Queue, side crypto.Side, payload []byte, path int) {
+func roundTrip(c *hc.Ctx, q *c04shared.Queue, rt *c04shared.Retainer, side crypto.Side, payload []byte, path int) {
 	r := c.Rng
 	key := c04shared.GenKey(r)
 	ak := key.WithID()
@@ -137,15 +177,16 @@ func roundTrip(c *hc.Ctx, q *c04shared.Queue, side crypto.Side, payload []byte, 
 	} else {
 		enc, dec = crypto.NewServerCipher(bytes.NewReader(rnd)), crypto.NewClientCipher(nil)
 	}
-	var b bin.Buffer
+	b := &bin.Buffer{} // own buffer per call: its contents are the API's result and are retained
 	line := fmt.Sprintf("enc %s %s %s %d %d %d %d %d %s %s", c04shared.SideName(side), hc.Hex(key[:]), hc.Hex(ak.ID[:]),
 		uint64(salt), uint64(sid), uint64(mid), uint32(seq), uint32(len(wire)), hc.Hex(wire), hc.Hex(rnd))
 	c.Eval(c04shared.Sig(line), true)
-	if err := enc.Encrypt(ak, d, &b); err != nil {
+	if err := enc.Encrypt(ak, d, b); err != nil {
 		c.Fail("encrypt-error", line, err.Error())
 		return
 	}
 	ct := append([]byte{}, b.Buf...)
+	rt.Keep("Cipher.Encrypt", line, func() []byte { return b.Buf })
 	q.Add(line, "ok "+hc.Hex(ct))
 	// monitor on the ciphertext
 	if len(ct) < 24 || (len(ct)-24)%16 != 0 {
@@ -163,6 +204,7 @@ func roundTrip(c *hc.Ctx, q *c04shared.Queue, side crypto.Side, payload []byte, 
 		c.Fail("roundtrip-rejected", line, err.Error())
 		return
 	}
+	c04shared.KeepDecrypted(rt, dline, got)
 	if got.Salt != salt || got.SessionID != sid || got.MessageID != mid || got.SeqNo != seq ||
 		int(got.MessageDataLen) != len(wire) || !bytes.Equal(got.Data(), wire) {
 		c.Fail("roundtrip-differs", line, fmt.Sprintf("got salt=%d sid=%d mid=%d seq=%d len=%d", got.Salt, got.SessionID, got.MessageID, got.SeqNo, got.MessageDataLen))
